@@ -6,6 +6,7 @@ ids = [json.loads(l)['id'] for l in open(os.path.join(ROOT, 'properties.jsonl'))
 TECH = 'bounded symbolic execution of the clang-14 LLVM IR of the real sources (own path-forking executor, engine S), assertions and branch feasibility decided by z3; counterexamples replayed on the g++ build'
 NOTE = 'Trusted: clang-14 -O1 lowering, engine S (validated on every run by concrete differential runs against the native build), z3, the environment models listed in the evidence (operator new/delete never fail; libstdc++ out-of-line functions modelled). Nothing is claimed outside the bounds recorded in the evidence.'
 CLAIMED = {
+ 'C20': ('4 C20', 'Decides the sequential non-interference lemma, not schedules: for every factory of the zoo used on Lexicon A while a populated Lexicon B exists, every load and store executed is classified by the engine (store to a global or to B-owned storage, load from a non-constant global or from B, static-init guard => violation), and B is unchanged afterwards. Counterexamples are replayed with two threads under ThreadSanitizer. Interleavings themselves are outside the claim.'),
  'C05': ('4 C05', 'For every factory of the zoo: the returned objects are fingerprinted through every accessor, the same store is grown past three capacity doublings (and, thorough, every other factory is used once), fingerprints recomputed through the original references after every step; ten explicit additions to each growing container; generative constructors yield pairwise distinct nodes. Relocation or release shows up as a checked-access violation at the first re-read.'),
  'C19': ('4 C19', 'For every factory of the zoo and for a populated unit: construct, use, destroy units/module/Lexicon in the prescribed order, twice per path; the allocation table of the engine must be empty for the window (leaks reported with allocating function), no double free / interior free; all accesses of all harnesses of all properties are checked accesses.'),
  'C02': ('4 C02', 'One path family per factory of the implementation (zoo.h, ~135 factory cases covering ~250 overloads): operands picked symbolically (two distinct candidates per argument), every enumerator/flag/level/location/qualifier argument a full-width symbolic value, every documented accessor and alias compared with the argument given; optional parts absent until set.'),
